@@ -351,3 +351,31 @@ Example C19_ex_emit_checker :   (* a wrong order raises 22 only; a missing call 
   Corr.emit_clauses p 0 1 a None
     (Corr.Ob (OEmit [mkcall f0 1 a; mkcall f2 1 a] (RList [mkcall f0 1 a; mkcall f2 1 a]))) = [].
 Proof. vm_compute. repeat split. Qed.
+
+(* ---------------------------------------------------------------------------------------------
+   Stage 3.  Totality / error exits of the emitter model.
+   The model answers "not a Python program" (OBad; comparator code 3) exactly for histories that
+   leave a silent() block that is not open -- every other history is inside the theorems above. *)
+Theorem C19_regime : forall (Arg Res : Type) (beh : func -> Z -> Arg -> Res) (h : list (op Arg)),
+  existsb (fun o => match o with OBad => true | _ => false end) (outs beh init h) = negb (brackets_ok h).
+Proof. exact (fun Arg Res beh h => bad_iff_brackets Arg Res beh h init). Qed.
+Print Assumptions C19_regime.
+
+(* connect raises ValueError exactly when the event has to come from a function name that is not
+   on_<event>, and then registers nothing; otherwise it returns normally and the callback is
+   appended to the registered ones *)
+Theorem C19_connect_outcome : forall (Arg Res : Type) (beh : func -> Z -> Arg -> Res)
+    (p : list (op Arg)) f st sf l rest,
+  nth_error (outs beh init (p ++ Connect f st sf l :: rest)) (length p) =
+    Some (match entry_of f st sf l with Some _ => ONone | None => OError end) /\
+  registered (p ++ [@Connect Arg f st sf l]) =
+    registered p ++ (match entry_of f st sf l with Some c => [c] | None => [] end) /\
+  (entry_of f st sf l = None <-> st = ByName /\ fn_name f = None).
+Proof. exact connect_outcome. Qed.
+Print Assumptions C19_connect_outcome.
+
+Example C19_ex_regime_bad :
+  existsb (fun o => match o with OBad => true | _ => false end)
+          (outs (fun _ _ (x : Z) => x) init [SilentEnter; SilentExit; SilentExit]) = true /\
+  brackets_ok [@SilentEnter Z; SilentExit; SilentExit] = false.
+Proof. vm_compute. split; reflexivity. Qed.
